@@ -207,5 +207,25 @@ pub fn run(ctx: &Ctx) {
         },
         |((n, shape, stream), cuts, use_ref), l| check_history(*n, shape, stream, cuts, *use_ref, l),
     );
+    // long frames (beyond 256 bytes) on large capacities; segments longer than the capacity are
+    // outside this property, so only streams whose segments fit are used
+    let n = ctx.tier.pick(40_000, 400_000);
+    ctx.par_proptest(
+        "long-frames",
+        n,
+        || {
+            (arb_long_frame_stream(), any::<bool>()).prop_flat_map(|((n, shape, stream), r)| {
+                let cuts = prop_oneof![Just(vec![]), arb_cuts(stream.len())];
+                (Just((n, shape, stream)), cuts, Just(r))
+            })
+        },
+        |((n, shape, stream), cuts, use_ref), l| {
+            let fits = stream.split(|b| *b == 0).all(|seg| seg.len() + 1 <= *n);
+            if !fits {
+                return Ok(());
+            }
+            check_history(*n, shape, stream, cuts, *use_ref, l)
+        },
+    );
     let _ = gen::pick_idx;
 }
